@@ -1,8 +1,8 @@
 // C03 — well-formed package databases are reported completely and exactly.
 //
-// Bounded-exhaustive exploration. For each of 16 format variants (requirements.txt and go.mod
-// have a second variant each that enumerates discarded-line classes between records and
-// sequences of replace directives; dpkg status, apk
+// Bounded-exhaustive exploration. For each of 17 format variants (requirements.txt and go.mod
+// have extra variants that enumerate discarded-line classes between records, comment texts
+// quoting active syntax, and sequences of replace directives; dpkg status, apk
 // installed, requirements.txt, go.mod, Cargo.lock, package-lock.json v1/v2/v3,
 // composer.lock, Gemfile.lock, gradle.lockfile, poetry.lock, Pipfile.lock,
 // packages.lock.json) a generator (gen_<format>.go) takes an ordered tuple of distinct
@@ -614,7 +614,7 @@ func runTask(r *ev.Run, t task) {
 
 func allFormats() []*format {
 	return []*format{
-		fmtDpkg(), fmtApk(), fmtRequirements(), fmtRequirementsSkip(), fmtGomod(), fmtGomodReplace(), fmtCargo(),
+		fmtDpkg(), fmtApk(), fmtRequirements(), fmtRequirementsSkip(), fmtRequirementsComments(), fmtGomod(), fmtGomodReplace(), fmtCargo(),
 		fmtPackageLock(1), fmtPackageLock(2), fmtPackageLock(3),
 		fmtComposer(), fmtGemfile(), fmtGradle(), fmtPoetry(), fmtPipfile(), fmtPackagesLock(),
 	}
